@@ -412,6 +412,15 @@ func (w *World) execBlock(op *Op) bool {
 		}
 		return false
 	}
+	for _, so := range op.Sub {
+		if so.K == OpSet || so.K == OpSetR || so.K == OpDel {
+			// the visitor mutated the collection between the counting pass and the
+			// visiting passes: what exactly is presented is not specified; only
+			// termination, no panic and the contents afterwards are judged
+			w.ev["block_visit_with_nested_mutation"]++
+			return true
+		}
+	}
 	if len(mc.Items) == 0 {
 		// whether an empty collection yields nil or an error is not judged
 		if len(seen) > 0 {
